@@ -11,6 +11,7 @@
 -/
 import Cctz.Properties.C05
 import Cctz.Properties.C17
+import Cctz.Properties.C04Align
 
 namespace Cctz.C17Idiom
 open Cctz.Spec
@@ -140,5 +141,41 @@ it is 2024-03-04, the last Monday on or before it 2024-02-26; asked for Thursday
 example : (Civil.nextWeekday (Civil.civilSub .day ⟨2024, 2, 29, 0, 0, 0⟩ 1).val 0).val = ⟨2024, 3, 4, 0, 0, 0⟩ := by decide +kernel
 example : (Civil.prevWeekday (Civil.civilAdd .day ⟨2024, 2, 29, 0, 0, 0⟩ 1).val 0).val = ⟨2024, 2, 26, 0, 0, 0⟩ := by decide +kernel
 example : (Civil.nextWeekday (Civil.civilSub .day ⟨2024, 2, 29, 0, 0, 0⟩ 1).val 3).val = ⟨2024, 2, 29, 0, 0, 0⟩ := by decide +kernel
+
+/-! ### the day-of-year ordinal inverts; weekdays differ as days do -/
+
+/-- `civil_day(y, 1, 1) + (get_yearday(f) − 1)` is the day of `f`: the ordinal inverts -/
+def yearday_inverse_statement : Prop :=
+  ∀ f : Fields, Valid f →
+    (Civil.civilAdd .day ⟨f.y, 1, 1, 0, 0, 0⟩ ((Civil.getYearday f).val - 1)).val = Civil.align .day f
+
+/-- weekdays differ as the day difference does, modulo 7 -/
+def weekday_difference_statement : Prop :=
+  ∀ a b : Fields, Valid a → Valid b → Aligned .day a → Aligned .day b →
+    ((Civil.getWeekday a).val - (Civil.getWeekday b).val) % 7 = (Civil.difference .day a b).val % 7
+
+theorem yearday_inverse : yearday_inverse_statement := by
+  intro f vf
+  obtain ⟨_, hyd, _, _⟩ := C17.getYearday_spec f vf
+  have vj : Valid ⟨f.y, 1, 1, 0, 0, 0⟩ := by
+    unfold Valid daysInMonth; simp
+  have aj : Aligned .day ⟨f.y, 1, 1, 0, 0, 0⟩ := ⟨rfl, rfl, rfl⟩
+  obtain ⟨v1, a1, u1⟩ := C05.add_exact .day _ ((Civil.getYearday f).val - 1) vj aj
+  obtain ⟨v2, a2, s2, _⟩ := C04.align_spec .day f vf
+  apply unitNum_inj .day v1 v2 a1 a2
+  rw [u1, hyd]
+  obtain ⟨e1, e2, e3⟩ := s2
+  simp only [unitNum]
+  rw [e1, e2, e3]; omega
+
+theorem weekday_difference : weekday_difference_statement := by
+  intro a b va vb ha hb
+  rw [(C17.getWeekday_spec a va).2, (C17.getWeekday_spec b vb).2,
+    C05.difference_exact .day a b va vb ha hb]
+  simp only [unitNum, weekdayOfDay]
+  omega
+
+example : (Civil.civilAdd .day ⟨2024, 1, 1, 0, 0, 0⟩ ((Civil.getYearday ⟨2024, 12, 31, 7, 8, 9⟩).val - 1)).val
+    = ⟨2024, 12, 31, 0, 0, 0⟩ := by decide +kernel
 
 end Cctz.C17Idiom
